@@ -9,6 +9,7 @@
 import BtcVerif.Model.Keys
 import BtcVerif.Proofs.Der
 import BtcVerif.Proofs.Keys
+import BtcVerif.Proofs.Ecdsa
 
 namespace BtcVerif.C14
 open BtcVerif BtcVerif.Crypto
@@ -20,15 +21,15 @@ theorem serVarInt_eq_compactSize (i : Nat) (h : i < 2 ^ 64) :
     Model.Wire.serVarInt i = .ok (Spec.Wire.compactSize i) := by
   unfold Model.Wire.serVarInt Spec.Wire.compactSize Model.Wire.packU
   by_cases h1 : i < 0xfd
-  · simp [h1]
+  · simp only [h1, if_true]
   · by_cases h2 : i ≤ 0xffff
-    · have : i < 256 ^ 2 := by omega
-      simp [h1, h2, this, Except.map]
+    · have t : i < 256 ^ 2 := by omega
+      simp only [h1, h2, if_false, if_true, if_pos t, Except.map]
     · by_cases h3 : i ≤ 0xffffffff
-      · have : i < 256 ^ 4 := by omega
-        simp [h1, h2, h3, this, Except.map]
-      · have : i < 256 ^ 8 := by omega
-        simp [h1, h2, h3, this, Except.map]
+      · have t : i < 256 ^ 4 := by omega
+        simp only [h1, h2, h3, if_false, if_true, if_pos t, Except.map]
+      · have t : i < 256 ^ 8 := by omega
+        simp only [h1, h2, h3, if_false, if_pos t, Except.map]
 
 theorem serBytes_eq_varBytes (b : Bytes) (h : b.length < 2 ^ 64) :
     Model.Wire.serBytes b = .ok (Spec.Wire.varBytes b) := by
@@ -65,7 +66,7 @@ theorem msg_digest_too_long (magic msg : Bytes) (hm : magic.length < 2 ^ 64) (hl
   have h2 : ¬ msg.length ≤ 0xffff := by omega
   have h3 : ¬ msg.length ≤ 0xffffffff := by omega
   have h4 : ¬ msg.length < 256 ^ 8 := by omega
-  simp [h1, h2, h3, h4, bind, Except.bind, Except.map]
+  simp only [h1, h2, h3, if_false, if_neg h4, bind, Except.bind, Except.map]
 
 /-! ### header byte of compact signatures -/
 
@@ -103,6 +104,58 @@ theorem header_decode_encode (h : Nat) (h1 : 27 ≤ h) (h2 : h ≤ 34) :
     Model.Keys.headerByte (Model.Keys.headerDecode h).1 (Model.Keys.headerDecode h).2 = h := by
   have : h = 27 ∨ h = 28 ∨ h = 29 ∨ h = 30 ∨ h = 31 ∨ h = 32 ∨ h = 33 ∨ h = 34 := by omega
   rcases this with rfl | rfl | rfl | rfl | rfl | rfl | rfl | rfl <;> decide
+
+/-! ### `sign_compact` -/
+
+/-- what `sign_compact` returns, given that the low-S normalised DER signature is the strict encoding
+    of `(r, s)` with r, s < 2^256: the 64 bytes are the fixed-width big-endian `r ‖ s` (neither
+    assertion fires, nothing is truncated) and the recovery id is one in 0..3 under which the python
+    recovery code, with its checks on, reproduces the signer's compressed key -/
+theorem signCompact_layout (hash pubC sig : Bytes) (r s i : Nat) (hr : r < 2 ^ 256) (hs : s < 2 ^ 256)
+    (h : Model.Keys.signCompactFinish hash (Secp256k1.derEncode r s) pubC = .ok (sig, i)) :
+    hash.length = 32 ∧ sig = Secp256k1.be32 r ++ Secp256k1.be32 s ∧ i < 4 ∧
+    ∃ Q, Model.Keys.recover (Secp256k1.be32 r) (Secp256k1.be32 s) hash i true = (1, some Q) ∧
+         Secp256k1.encode Q true = pubC := by
+  have l1 := derIntBody_length_le 32 r (by simpa using hr)
+  have l2 := derIntBody_length_le 32 s (by simpa using hs)
+  unfold Model.Keys.signCompactFinish at h
+  by_cases hh : hash.length = 32
+  · simp only [hh, ne_eq, not_true_eq_false, if_false, bind, Except.bind] at h
+    rw [derSigDeserialize_derEncode r s (by omega)] at h
+    simp only [pad32_derIntBody r hr, pad32_derIntBody s hs] at h
+    split at h
+    · rename_i j hj
+      simp only [pure, Except.pure, Except.ok.injEq, Prod.mk.injEq] at h
+      obtain ⟨h1, h2⟩ := h
+      subst h2
+      have hmem := List.mem_of_find?_eq_some hj
+      have htry := List.find?_some hj
+      refine ⟨hh, h1.symm, ?_, ?_⟩
+      · simp at hmem; omega
+      · split at htry
+        · rename_i Q hQ
+          exact ⟨Q, hQ, by simpa using htry⟩
+        · simp at htry
+    · simp [throw, throwThe, MonadExceptOf.throw] at h
+  · simp [hh, bind, Except.bind, throw, throwThe, MonadExceptOf.throw] at h
+
+/-- the only ways `sign_compact` fails on such input: a digest that is not 32 bytes, or no recovery id
+    reproducing the key — both ValueError -/
+theorem signCompact_error (hash pubC : Bytes) (r s : Nat) (hr : r < 2 ^ 256) (hs : s < 2 ^ 256) (e : Exc)
+    (h : Model.Keys.signCompactFinish hash (Secp256k1.derEncode r s) pubC = .error e) : e = .valueerr := by
+  have l1 := derIntBody_length_le 32 r (by simpa using hr)
+  have l2 := derIntBody_length_le 32 s (by simpa using hs)
+  unfold Model.Keys.signCompactFinish at h
+  by_cases hh : hash.length = 32
+  · simp only [hh, ne_eq, not_true_eq_false, if_false, bind, Except.bind] at h
+    rw [derSigDeserialize_derEncode r s (by omega)] at h
+    simp only [pad32_derIntBody r hr, pad32_derIntBody s hs] at h
+    split at h
+    · simp [pure, Except.pure] at h
+    · simp [throw, throwThe, MonadExceptOf.throw] at h
+      exact h.symm
+  · simp [hh, bind, Except.bind, throw, throwThe, MonadExceptOf.throw] at h
+    exact h.symm
 
 /-! ### `recover_compact`, `VerifyMessage` -/
 
@@ -156,6 +209,42 @@ theorem verify_false_other (cv av : Nat) (payload magic msg sig digest pk : Byte
   rcases hne with h1 | h1
   · exact absurd h h1
   · exact h1
+
+-- UNPROVED (full statement): on the property's domain the python recovery code, read with the reference
+-- curve in place of OpenSSL, is SEC 1 §4.1.6 (it fails exactly when the reference cannot lift
+-- x = r + ⌊recid/2⌋·n, otherwise yields the same point; the reference additionally refuses infinity):
+--
+--   theorem recover_eq_reference (sigR sigS msg : Bytes) (recid : Nat)
+--       (hr0 : 0 < beNat sigR) (hrn : beNat sigR < Secp256k1.n) (hs0 : 0 < beNat sigS)
+--       (hsn : beNat sigS < Secp256k1.n) (hrec : recid < 4) :
+--       Secp256k1.recover (beNat msg) (beNat sigR) (beNat sigS) recid =
+--         (Model.Keys.recover sigR sigS msg recid false).2.bind (fun Q => if Q = .inf then none else some Q)
+--
+-- Both sides unfold to the same expression over `liftX` and `mulAdd2`; the proof is a case split, but
+-- `simp`/`dsimp` on the unfolded terms (which mention the 256-bit constants) did not terminate within
+-- minutes in the time available.  The equality is exercised by the correspondence run instead
+-- (`c14.msg` recomputes the key with `Secp256k1.recover`, `c14.recoverCompact` with `Model.Keys.recover`,
+-- both compared with the library on the same signatures).  What is proved of `Model.Keys.recover` is its
+-- use inside `signCompact_layout` above and the abstract algebra of the formula (`recover_correct`).
+
+/-! ### public-key recovery, abstractly -/
+
+section abstract
+variable {q : ℕ} [Fact q.Prime] {E : Type} [AddCommGroup E] [Module (ZMod q) E]
+
+/-- `recover_correct`: with the signer's nonce point `R = k·G` the formula `(−e/r)·G + (s/r)·R` that
+    `CECKey.recover` evaluates returns the signer's public key `d·G` -/
+theorem recover_correct (C : Ecdsa.Params q E) (d e k : ZMod q) (hk : k ≠ 0) (hr : Ecdsa.signR C k ≠ 0) :
+    Ecdsa.recoverPoint C (k • C.g) e (Ecdsa.signR C k) (Ecdsa.signS C d e k) = d • C.g :=
+  Ecdsa.recover_correct C d e k hk hr
+
+/-- whatever candidate point `R` with `f R = r` is used, the signature verifies under the recovered
+    key: a wrong recovery id yields another key, never an exception of the algebra -/
+theorem verify_recovered (C : Ecdsa.Params q E) (R : E) (e r s : ZMod q) (hr : r ≠ 0) (hs : s ≠ 0)
+    (hR : R ≠ 0) (hf : C.f R = r) : Ecdsa.Verify C (Ecdsa.recoverPoint C R e r s) e r s :=
+  Ecdsa.verify_recovered C R e r s hr hs hR hf
+
+end abstract
 
 /-! ### non-vacuity -/
 
